@@ -548,8 +548,51 @@ func loadedField(v ssa.Value) *types.Var {
 				return fieldOfAddr(x.X)
 			}
 		}
+		return heldField(v)
+	}
+}
+
+// heldField: v is not a load, but the function stores it into a struct field, that store is the only store to the
+// field in the function, and v is stored nowhere else: v is the value the field holds from then on (a local that
+// is prepared first and installed with one assignment, x.F = v).
+func heldField(v ssa.Value) *types.Var {
+	switch v.(type) {
+	case *ssa.Phi, *ssa.MakeSlice, *ssa.Call:
+	default:
 		return nil
 	}
+	refs := v.Referrers()
+	if refs == nil {
+		return nil
+	}
+	var f *types.Var
+	for _, r := range *refs {
+		st, ok := r.(*ssa.Store)
+		if !ok || st.Val != v {
+			continue
+		}
+		ff := fieldOfAddr(st.Addr)
+		if ff == nil || f != nil {
+			return nil
+		}
+		f = ff
+	}
+	if f == nil {
+		return nil
+	}
+	fn := v.(ssa.Instruction).Parent()
+	n := 0
+	for _, b := range fn.Blocks {
+		for _, in := range b.Instrs {
+			if st, ok := in.(*ssa.Store); ok && fieldOfAddr(st.Addr) == f {
+				n++
+			}
+		}
+	}
+	if n != 1 {
+		return nil
+	}
+	return f
 }
 
 // callPassesValue: the call passes v directly or as the single element of a variadic slice.
